@@ -205,7 +205,7 @@ func valuesFor(t string) []celVal {
 		return []celVal{fv(0), fv(math.Copysign(0, -1)), fv(0.5), fv(1), fv(-1), fv(1.5), fv(2), fv(100), fv(100.5), fv(-0.25), fv(1e300), fv(-1e300), fv(math.Inf(1)), fv(math.Inf(-1)), fv(math.NaN()), fv(5e-324),
 			fv(16777217), fv(16777216), fv(0.123456789), fv(float64(float32(0.123456789))), fv(1234567.89), fv(float64(float32(1234567.89))), fv(0.1), fv(float64(float32(0.1)))}
 	case "string":
-		return []celVal{sv(""), sv("a"), sv("abc"), sv("prefix_x"), sv("x.com"), sv("a@b"), sv("héllo"), sv("日本語"), sv("Abc"), sv("active"), sv("12"), sv("-3"), sv("12abc"), sv("\xff\xfe"), sv("a b c d e f"), sv("pending")}
+		return []celVal{sv(""), sv("a"), sv("abc"), sv("prefix_x"), sv("x.com"), sv("a@b"), sv("héllo"), sv("日本語"), sv("Abc"), sv("active"), sv("12"), sv("-3"), sv("12abc"), sv("\xff\xfe"), sv("a b c d e f"), sv("pending"), sv("a  b"), sv("a b"), sv("x\ty"), sv("x y")}
 	case "bool":
 		return []celVal{bv(true), bv(false)}
 	case "[]string":
@@ -590,6 +590,7 @@ func celCorpus() []celCase {
 		{"string", "value + 'x' == 'ax'"}, {"string", "value < 'b'"}, {"string", "startsWith(value, 'a')"},
 		{"int", "double(value) > 17.5"}, {"int", "string(value) == '42'"}, {"string", "double(value) > 1.5"},
 		{"int", "value == 1 || value == 2 && this.B"}, {"float64", "value <= 16777217.0"},
+		{"string", "value == 'a  b'"}, {"string", "value.contains('a  b')"}, {"string", "value in ['a  b', 'c']"}, {"string", "value != 'x\ty'"}, {"string", "value.startsWith('x  ')"},
 		{"string", "value.matches('^(?:ab|cd)+$')"}, {"string", "value.matches('^ab?.d$')"}, {"string", "!value.contains('..')"}, {"string", "value != '${HOME}'"},
 		{"string", "value.contains('.trim(')"}, {"string", "value == '[1:3]'"}, {"string", "value.startsWith('range(')"},
 		{"[][]int", "value.all(row, row.all(c, c > 0))"}, {"[][]int", "value.exists(row, row.exists(c, c == 7))"}, {"[][]int", "value.all(row, size(row) > 0 && row.all(c, c >= 0))"}, {"[]int", "value.filter(x, x > 0).all(y, y < 100)"}, {"[]int", "value.filter(x, x > 0).exists(y, y == 7)"},
@@ -603,6 +604,12 @@ func celCorpus() []celCase {
 	}
 	// a field of a named struct type: `required` emits no check for it, the cel rule does
 	out = append(out,
+		// a cel rule next to an ordinary rule that compiles to the very same condition: both must be reported
+		celCase{ID: "t000", FType: "int", Expr: "value >= 18", Feats: []string{"corpus", "cel+same-rule"}, Corpus: true, Extra: "\t//govalid:gte=18\n"},
+		celCase{ID: "t001", FType: "int", Expr: "value < 100", Feats: []string{"corpus", "cel+same-rule"}, Corpus: true, Extra: "\t//govalid:lt=100\n"},
+		celCase{ID: "t002", FType: "int64", Expr: "value > 0", Feats: []string{"corpus", "cel+same-rule"}, Corpus: true, Extra: "\t//govalid:gt=0\n"},
+		celCase{ID: "t003", FType: "int", Expr: "value >= 21", Feats: []string{"corpus", "cel+other-rule"}, Corpus: true, Extra: "\t//govalid:gte=18\n"},
+		celCase{ID: "t004", FType: "string", Expr: "size(value) > 2", Feats: []string{"corpus", "cel+other-rule"}, Corpus: true, Extra: "\t//govalid:required\n"},
 		celCase{ID: "s000", FType: "Span", Expr: "value.A <= value.B", Feats: []string{"corpus", "struct-field"}, Corpus: true},
 		celCase{ID: "s001", FType: "Span", Expr: "value.A <= value.B", Feats: []string{"corpus", "struct-field", "required+cel"}, Corpus: true, Extra: "\t//govalid:required\n"},
 		celCase{ID: "s002", FType: "Span", Expr: "value.A + value.B >= this.X", Feats: []string{"corpus", "struct-field", "required+cel"}, Corpus: true, Extra: "\t//govalid:required\n"})
@@ -669,8 +676,9 @@ func celSource(pkg string, c celCase) string {
 
 func celDriverFile(pkg string, c celCase, vals []celVal) string {
 	var sb strings.Builder
-	sb.WriteString("package " + pkg + "\n\nimport (\n\t\"context\"\n\t\"errors\"\n\t\"fmt\"\n\t\"io\"\n\t\"math\"\n\t\"strings\"\n\t\"time\"\n\n\t\"scen/rt\"\n)\n\nvar _ = math.Pi\nvar _ time.Duration\n\n")
-	sb.WriteString("func run1(v *T) (res string) {\n\tdefer func() {\n\t\tif r := recover(); r != nil {\n\t\t\tres = \"panic\"\n\t\t}\n\t}()\n\tbefore := fmt.Sprintf(\"%#v\", *v)\n\terr := v.Validate()\n\tif after := fmt.Sprintf(\"%#v\", *v); after != before {\n\t\treturn \"mutated\"\n\t}\n\tif err == nil {\n\t\treturn \"ok\"\n\t}\n\tif errors.Is(err, ErrTFCELValidation) {\n\t\treturn \"cel\"\n\t}\n\treturn \"other\"\n}\n\n")
+	sb.WriteString("package " + pkg + "\n\nimport (\n\t\"context\"\n\t\"errors\"\n\t\"fmt\"\n\t\"io\"\n\t\"math\"\n\t\"sort\"\n\t\"strings\"\n\t\"time\"\n\n\tverrs \"github.com/sivchari/govalid/validation/errors\"\n\n\t\"scen/rt\"\n)\n\nvar _ = math.Pi\nvar _ time.Duration\n\n")
+	sb.WriteString("func run1(v *T) (res string) {\n\tdefer func() {\n\t\tif r := recover(); r != nil {\n\t\t\tres = \"panic\"\n\t\t}\n\t}()\n\tbefore := fmt.Sprintf(\"%#v\", *v)\n\terr := v.Validate()\n\tif after := fmt.Sprintf(\"%#v\", *v); after != before {\n\t\treturn \"mutated\"\n\t}\n\tif err == nil {\n\t\treturn \"ok\"\n\t}\n")
+	sb.WriteString("\tvar ves verrs.ValidationErrors\n\tif !errors.As(err, &ves) {\n\t\treturn \"other\"\n\t}\n\tvar types []string\n\tfor _, e := range ves {\n\t\ttypes = append(types, e.Type)\n\t}\n\tsort.Strings(types)\n\tif errors.Is(err, ErrTFCELValidation) != strings.Contains(\",\"+strings.Join(types, \",\")+\",\", \",cel,\") {\n\t\treturn \"is-mismatch\"\n\t}\n\treturn strings.Join(types, \",\")\n}\n\n")
 	// ValidateContext under contexts that turn done at their k-th Err() call (k = 0: already cancelled). Whenever a call
 	// returned non-nil (Calls > K) the context was OBSERVED done and the result must be exactly that error.
 	sb.WriteString("func RunCtx(w io.Writer) {\n\tvar parts []string\n\tfor k := 0; k <= 6; k++ {\n\t\tc := &rt.FlipCtx{Context: context.Background(), K: k, Kind: context.Canceled}\n\t\tres := \"other\"\n")
